@@ -355,3 +355,19 @@ Definition old_assignments (nodes : list node) (m : metrics) (specs : list sspec
   then Some (map (fun s => (s, old_calc nname nodes (manager_chains (mlookup m) specs) s))
                  (zsort_dedup (map ss_name specs)))
   else None.
+
+(* listNodesFromCache (sharding_controller.go, after fix f5a4653): the lister's
+   nodes sorted by name.  Names are distinct in a lister, so sort.Slice (not
+   stable) has exactly one possible result: the ascending arrangement, computed
+   here by insertion.  The harness names node k "n%07d", so Go's byte-wise
+   string order is the numeric order of the positives. *)
+Fixpoint ins_node (x : node) (l : list node) : list node :=
+  match l with
+  | [] => [x]
+  | y :: r => if Pos.leb (nname x) (nname y) then x :: l else y :: ins_node x r
+  end.
+Definition list_nodes (l : list node) : list node := fold_right ins_node [] l.
+
+(* syncShards: listNodesFromCache, then CalculateShardAssignments *)
+Definition sync_assignments (nodes : list node) (m : metrics) (specs : list sspec) :=
+  assignments (list_nodes nodes) m specs.
